@@ -438,7 +438,7 @@ template <typename T> struct Spec
     bool force_acc = false;
     Integrand<T> f; Map<T> map;
     bool builtin = true; int mode = 0; T target = T(); std::vector<bool> script;
-    std::string filename; bool keepfile = false; bool cbbase = false; bool cbref = false; int subcomm = 0; int ofmt = 0; bool iexc = false; int coutfmt = 0;
+    std::string filename; bool keepfile = false; bool cbbase = false; bool cbref = false; int subcomm = 0; int ofmt = 0; bool iexc = false; int coutfmt = 0; bool churn = false; bool reuse = false;
 };
 
 #ifdef VERIF_MPI
@@ -519,6 +519,12 @@ template <typename T, typename C, typename Mk, typename MkMpi> Sx run_ops(Spec<T
     for (auto const& op : ops.L_())
     {
         std::string const& o = op.at(0).Y_();
+        if (sp.churn)
+        {
+            // what users do with checkpoints between operations: copy construction, move construction, copy and move assignment,
+            // self-assignment through a reference, swap - none of it may change what the checkpoint holds
+            C a(chk); C b(std::move(a)); C c = chk; c = b; C& self = c; c = self; C d(chk); std::swap(c, d); chk = std::move(d);
+        }
         if (o == "run")
         {
             std::vector<std::size_t> calls;
@@ -685,6 +691,8 @@ template <typename T> Sx run_case(std::string const& cmd, Sx const& a)
     sp.ofmt = static_cast<int>(num("ofmt", 0));
     sp.iexc = num("iexc", 0) != 0;
     sp.coutfmt = static_cast<int>(num("coutfmt", 0));
+    sp.churn = num("churn", 0) != 0;
+    sp.reuse = num("reuse", 0) != 0;
     // the state the program left std::cout in before it handed control to the library (restored when the case ends)
     struct CoutGuard
     {
@@ -706,13 +714,17 @@ template <typename T> Sx run_case(std::string const& cmd, Sx const& a)
         C chk = hep::make_plain_chkpt<T, script_engine>(script_engine(pos0));
         BuiltinCb<C> bcb{hep::callback<C>(modes[sp.mode & 3], sp.filename, sp.target), sp.mode, sp.filename, sp.keepfile, sp.cbref}; ScriptCb<C> scb{sp.script};
         BuiltinCb<C, hep::plain_chkpt<T>> bbb{hep::callback<hep::plain_chkpt<T>>(modes[sp.mode & 3], sp.filename, sp.target), sp.mode, sp.filename, sp.keepfile, sp.cbref};
+        auto kept1 = mk_int1<T>(sp); auto kept0 = mk_int0<T>(sp);
         result = run_ops<T>(sp, ops, chk, [&](std::vector<std::size_t> const& calls, C const& c) -> C {
-            auto i1 = mk_int1<T>(sp); auto i0 = mk_int0<T>(sp);
+            // (reuse: ONE integrand object for all the runs of the case, as a user who keeps the integrand in a variable has)
+            auto fresh1 = mk_int1<T>(sp); auto fresh0 = mk_int0<T>(sp);
+            auto& i1 = sp.reuse ? kept1 : fresh1; auto& i0 = sp.reuse ? kept0 : fresh0;
+            std::uint64_t const own_before = i1.function().own_calls + i0.function().own_calls;
             std::uint64_t const before = g_ctx->idx;
             C r = (sp.builtin && sp.cbbase) ? (with_dists ? hep::plain(i1, calls, c, bbb) : hep::plain(i0, calls, c, bbb))
                 : with_dists ? (sp.builtin ? hep::plain(i1, calls, c, bcb) : hep::plain(i1, calls, c, scb))
                 : (sp.builtin ? hep::plain(i0, calls, c, bcb) : hep::plain(i0, calls, c, scb));
-            check_function_state(i1.function().own_calls + i0.function().own_calls, g_ctx->idx - before);
+            check_function_state(i1.function().own_calls + i0.function().own_calls - own_before, g_ctx->idx - before);
             return r; },
             [&](Spec<T>& my, std::vector<std::size_t> const& calls, C const& c) {
 #ifdef VERIF_MPI
@@ -733,6 +745,7 @@ template <typename T> Sx run_case(std::string const& cmd, Sx const& a)
             : hep::make_vegas_chkpt<T, script_engine>(static_cast<std::size_t>(ck.at(1).N_()), static_cast<T>(ck.at(2).F_()), script_engine(pos0));
         BuiltinCb<C> bcb{hep::callback<C>(modes[sp.mode & 3], sp.filename, sp.target), sp.mode, sp.filename, sp.keepfile, sp.cbref}; ScriptCb<C> scb{sp.script};
         BuiltinCb<C, hep::vegas_chkpt<T>> bbb{hep::callback<hep::vegas_chkpt<T>>(modes[sp.mode & 3], sp.filename, sp.target), sp.mode, sp.filename, sp.keepfile, sp.cbref};
+        auto kept1 = mk_int1<T>(sp); auto kept0 = mk_int0<T>(sp);
         result = run_ops<T>(sp, ops, chk, [&](std::vector<std::size_t> const& calls, C const& c) -> C {
             if (!sp.fwide.empty())
             {
@@ -740,12 +753,15 @@ template <typename T> Sx run_case(std::string const& cmd, Sx const& a)
                 auto iw = hep::make_integrand<T>(WideIntegrand<T>{sp.fwide}, sp.dims);
                 return hep::vegas(iw, calls, c, scb);
             }
-            auto i1 = mk_int1<T>(sp); auto i0 = mk_int0<T>(sp);
+            // (reuse: ONE integrand object for all the runs of the case, as a user who keeps the integrand in a variable has)
+            auto fresh1 = mk_int1<T>(sp); auto fresh0 = mk_int0<T>(sp);
+            auto& i1 = sp.reuse ? kept1 : fresh1; auto& i0 = sp.reuse ? kept0 : fresh0;
+            std::uint64_t const own_before = i1.function().own_calls + i0.function().own_calls;
             std::uint64_t const before = g_ctx->idx;
             C r = (sp.builtin && sp.cbbase) ? (with_dists ? hep::vegas(i1, calls, c, bbb) : hep::vegas(i0, calls, c, bbb))
                 : with_dists ? (sp.builtin ? hep::vegas(i1, calls, c, bcb) : hep::vegas(i1, calls, c, scb))
                 : (sp.builtin ? hep::vegas(i0, calls, c, bcb) : hep::vegas(i0, calls, c, scb));
-            check_function_state(i1.function().own_calls + i0.function().own_calls, g_ctx->idx - before);
+            check_function_state(i1.function().own_calls + i0.function().own_calls - own_before, g_ctx->idx - before);
             return r; },
             [&](Spec<T>& my, std::vector<std::size_t> const& calls, C const& c) {
 #ifdef VERIF_MPI
@@ -766,13 +782,17 @@ template <typename T> Sx run_case(std::string const& cmd, Sx const& a)
             : hep::make_multi_channel_chkpt<T, script_engine>(static_cast<T>(ck.at(1).F_()), static_cast<T>(ck.at(2).F_()), script_engine(pos0));
         BuiltinCb<C> bcb{hep::callback<C>(modes[sp.mode & 3], sp.filename, sp.target), sp.mode, sp.filename, sp.keepfile, sp.cbref}; ScriptCb<C> scb{sp.script};
         BuiltinCb<C, hep::multi_channel_chkpt<T>> bbb{hep::callback<hep::multi_channel_chkpt<T>>(modes[sp.mode & 3], sp.filename, sp.target), sp.mode, sp.filename, sp.keepfile, sp.cbref};
+        auto kept1 = mk_mc1<T>(sp); auto kept0 = mk_mc0<T>(sp);
         result = run_ops<T>(sp, ops, chk, [&](std::vector<std::size_t> const& calls, C const& c) -> C {
-            auto i1 = mk_mc1<T>(sp); auto i0 = mk_mc0<T>(sp);
+            // (reuse: ONE integrand object for all the runs of the case, as a user who keeps the integrand in a variable has)
+            auto fresh1 = mk_mc1<T>(sp); auto fresh0 = mk_mc0<T>(sp);
+            auto& i1 = sp.reuse ? kept1 : fresh1; auto& i0 = sp.reuse ? kept0 : fresh0;
+            std::uint64_t const own_before = i1.function().own_calls + i0.function().own_calls;
             std::uint64_t const before = g_ctx->idx;
             C r = (sp.builtin && sp.cbbase) ? (with_dists ? hep::multi_channel(i1, calls, c, bbb) : hep::multi_channel(i0, calls, c, bbb))
                 : with_dists ? (sp.builtin ? hep::multi_channel(i1, calls, c, bcb) : hep::multi_channel(i1, calls, c, scb))
                 : (sp.builtin ? hep::multi_channel(i0, calls, c, bcb) : hep::multi_channel(i0, calls, c, scb));
-            check_function_state(i1.function().own_calls + i0.function().own_calls, g_ctx->idx - before);
+            check_function_state(i1.function().own_calls + i0.function().own_calls - own_before, g_ctx->idx - before);
             return r; },
             [&](Spec<T>& my, std::vector<std::size_t> const& calls, C const& c) {
 #ifdef VERIF_MPI
